@@ -12,7 +12,58 @@ fn emit_choice(
         || !choice.choice_only_tags.is_empty()
         || !choice.conditions.is_empty();
 
-    if has_ev_content {
+    // A sequence in the text in front of the bracket counts both evaluations (when the choice
+    // is offered and when it is chosen): the start text then lives in one container that both
+    // places run, returning through the temporary `$r`, as inklecate emits it.
+    let shared_start_path = if choice.has_start_content && start_text_has_sequence(&choice.start_text) {
+        Some(joined_path(&scope.path, out.content.len() + scope.param_offset))
+    } else {
+        None
+    };
+
+    if let Some(header_path) = &shared_start_path {
+        let header_scope = scope.at_path(header_path.clone());
+        let mut arr = vec![
+            json!("ev"),
+            json!({"^->": joined_path(header_path, "$r1")}),
+            json!({"temp=": "$r"}),
+            json!("str"),
+            json!({"->": joined_path(header_path, "s")}),
+            Value::Array(vec![json!({"#n": "$r1"})]),
+            json!("/str"),
+        ];
+        emit_choice_text_segment(
+            &choice.choice_only_text,
+            &choice.choice_only_tags,
+            &mut arr,
+            &header_scope,
+            context,
+        )?;
+        for (index, condition) in choice.conditions.iter().enumerate() {
+            emit_condition(condition, &mut arr, &header_scope, context)?;
+            if index > 0 {
+                arr.push(json!("&&"));
+            }
+        }
+        arr.push(json!("/ev"));
+        arr.push(json!({
+            "*": joined_path(&scope.path, format!("c-{choice_index}")),
+            "flg": choice_flags(choice)
+        }));
+        let start_scope = header_scope.at_path(joined_path(header_path, "s"));
+        let mut start_content = Vec::new();
+        emit_choice_text_content(
+            &choice.start_text,
+            &choice.start_tags,
+            &mut start_content,
+            &start_scope,
+            context,
+        )?;
+        start_content.push(json!({"->": "$r", "var": true}));
+        start_content.push(Value::Null);
+        arr.push(json!({"s": start_content}));
+        out.push(Value::Array(arr));
+    } else if has_ev_content {
         out.push(json!("ev"));
         emit_choice_text_segment(
             &choice.start_text,
@@ -40,12 +91,45 @@ fn emit_choice(
     let branch_name = format!("c-{choice_index}");
     let branch_scope = scope.choice_branch(&branch_name);
     let choice_ptr = branch_scope.path.clone();
-    out.push(json!({"*": choice_ptr, "flg": choice_flags(choice)}));
+    if shared_start_path.is_none() {
+        out.push(json!({"*": choice_ptr, "flg": choice_flags(choice)}));
+    }
+    // with a shared start container the branch begins with a 6-element preamble that runs
+    // it (see below): indexed paths into the branch count it, and the branch's own text is
+    // only what follows the start text
+    let offset_scope;
+    let branch_scope = if shared_start_path.is_some() {
+        offset_scope = branch_scope.with_param_offset(SHARED_START_PREAMBLE_LEN);
+        offset_scope
+    } else {
+        branch_scope
+    };
+    let end_only_text;
+    let mut end_only_tags = Vec::new();
+    let (choice_selected_text, choice_selected_tags): (Option<&String>, &[DynamicString]) =
+        match (&shared_start_path, &choice.selected_text) {
+            (Some(_), Some(selected)) => {
+                let start = choice.start_text.trim_end();
+                end_only_text = selected
+                    .strip_prefix(start)
+                    .map(str::to_owned)
+                    .unwrap_or_default();
+                end_only_tags.extend(
+                    choice
+                        .selected_tags
+                        .iter()
+                        .skip(choice.start_tags.len())
+                        .cloned(),
+                );
+                (Some(&end_only_text), &end_only_tags)
+            }
+            _ => (choice.selected_text.as_ref(), &choice.selected_tags),
+        };
 
     let mut branch_nodes = Vec::new();
     let mut body_already_emitted = false;
     let mut tags_already_emitted = false;
-    if let Some(selected_text) = &choice.selected_text {
+    if let Some(selected_text) = choice_selected_text {
         let recovered_inline_divert = if choice.body.is_empty() {
             recover_selected_text_inline_divert(selected_text)
         } else {
@@ -58,7 +142,7 @@ fn emit_choice(
         {
             branch_nodes.extend(tokenize_inline_content(&format!(" {selected_text}"))?);
             // the tags of the chosen text come before the divert takes the flow away
-            branch_nodes.extend(choice.selected_tags.iter().cloned().map(Node::Tag));
+            branch_nodes.extend(choice_selected_tags.iter().cloned().map(Node::Tag));
             tags_already_emitted = true;
             if choice.body_divert_is_inline {
                 branch_nodes.extend(choice.body.clone());
@@ -82,7 +166,7 @@ fn emit_choice(
             branch_nodes.extend(tokenize_inline_content(selected_text)?);
         }
         if !tags_already_emitted {
-            branch_nodes.extend(choice.selected_tags.iter().cloned().map(Node::Tag));
+            branch_nodes.extend(choice_selected_tags.iter().cloned().map(Node::Tag));
         }
         if !body_already_emitted {
             // Skip the auto-newline for terminal diverts, and also for inline diverts that are
@@ -185,10 +269,34 @@ fn emit_choice(
     // CountStartOnly (4) is always set for choices but only serialized when
     // accompanied by Visits or Turns (lone CountStartOnly is meaningless).
     let count_flags = if flags > 0 { Some(flags | 4) } else { None };
-    out.insert_named(
-        branch_name,
-        branch_container.into_json_array(None, count_flags)?,
-    );
+    let mut branch_value = branch_container.into_json_array(None, count_flags)?;
+    if let (Some(header_path), Value::Array(items)) = (&shared_start_path, &mut branch_value) {
+        let preamble = vec![
+            json!("ev"),
+            json!({"^->": joined_path(&choice_ptr, "$r2")}),
+            json!("/ev"),
+            json!({"temp=": "$r"}),
+            json!({"->": joined_path(header_path, "s")}),
+            Value::Array(vec![json!({"#n": "$r2"})]),
+        ];
+        debug_assert_eq!(preamble.len(), SHARED_START_PREAMBLE_LEN);
+        items.splice(0..0, preamble);
+    }
+    out.insert_named(branch_name, branch_value);
 
     Ok(())
+}
+
+/// Number of elements that run the shared start container at the beginning of a branch.
+const SHARED_START_PREAMBLE_LEN: usize = 6;
+
+fn start_text_has_sequence(text: &str) -> bool {
+    parse_dynamic_string(text)
+        .map(|dynamic| {
+            dynamic
+                .parts
+                .iter()
+                .any(|part| matches!(part, DynamicStringPart::Sequence(_)))
+        })
+        .unwrap_or(false)
 }
